@@ -40,7 +40,9 @@ def findings_tables():
         sid = os.path.basename(os.path.dirname(d))
         cb = m.get("caught_by")
         caught = (", ".join(cb) if isinstance(cb, list) else str(cb)) + (" — " + str(m.get("caught_note") or m.get("how")) if (m.get("caught_note") or m.get("how")) else "")
-        rows.append(f"| {sid} | {clip(m.get('summary', ''), 300)} | {clip(m.get('needs_to_manifest', ''), 260)} | {clip(caught, 420)} |")
+        if m.get("stale"):
+            caught += " [STALE: " + str(m["stale"]) + "]"
+        rows.append(f"| {sid} | {clip(m.get('summary', ''), 300)} | {clip(m.get('needs_to_manifest', ''), 260)} | {clip(caught, 520)} |")
     t12 = "| id | change | needs | caught by |\n|----|--------|-------|-----------|\n" + "\n".join(rows)
     return t81, t82, t12, len(fixed), len(opened), len(rows)
 
